@@ -96,8 +96,8 @@ def bool_setting_edges(cfg, du, env_name):
         neg = False
         while v[0] == "unop" and v[1] == "Not":
             v = v[2]; neg = not neg
-        is_flag = (v[0] == "call" and (v[1] or "").endswith("::unwrap")) or \
-                  (v[0] == "place" and any(isinstance(e, tuple) and e[0] == "d" and e[1] == "Ok" for e in v[1][1]))
+        is_flag = (v[0] == "call" and (v[1] or "").endswith(("::unwrap", "::expect", "::unwrap_or", "::unwrap_or_default"))) or \
+                  (v[0] == "place" and any(isinstance(e, tuple) and e[0] == "d" and e[1] in ("Ok", "Some") for e in v[1][1]))
         if not is_flag or env_const_of(du, v) != env_name:
             continue
         for val, tb in st["targets"]:
@@ -339,6 +339,9 @@ def run(ctx):
     rnames = {f.def_ for f in restricted}
     anames = {f.def_ for f in allow_all}
     for fn in F.rws_fns():
+        if fn.kind == "Promoted" or is_private_helper(F, fn.def_):
+            continue
+        fn = ctx.inl(fn)          # the flag may be read and parsed by a private helper (A11)
         calls_r = [(bid, t) for bid, t in fn.calls() if callee_name(t) in rnames]
         calls_a = [(bid, t) for bid, t in fn.calls() if callee_name(t) in anames]
         if not (calls_r and calls_a):
